@@ -160,6 +160,8 @@ type c18W struct {
 	Body   c18B
 	Del    bool
 	Second bool // written after the switch to f2 (before the resync)
+	// users loaded (GetUser + inherited channels, which loads the roles they hold) immediately BEFORE this write
+	LoadBefore []string
 }
 
 func (w c18W) coq() string {
@@ -169,6 +171,13 @@ func (w c18W) coq() string {
 		anc = append(anc, c18CqRev(h))
 	}
 	return fmt.Sprintf("(W %d %d %d %s %s %s)", w.Doc, g, d, cqList(anc), w.Body.coq(), cqBool(w.Del))
+}
+func c18LoadsCoq(names []string) []string {
+	var out []string
+	for _, n := range names {
+		out = append(out, "(L "+cqN(c18Idx(n))+")")
+	}
+	return out
 }
 func c18DocID(i int) string { return fmt.Sprintf("d%d", i) }
 
@@ -184,13 +193,15 @@ type c18Role struct {
 type c18Case struct {
 	F1, F2 c18F
 	Regen  bool
-	// Warm: every principal is loaded once after the writes and before the resync, so that the computed
-	// sets stored in the principal documents are known (always true: users are created with computed sets
-	// and the write path invalidates only the principals a write touches, so "not loaded" is not "empty")
-	Warm  bool
-	Ws    []c18W
-	Users []c18User
-	Roles []c18Role
+	// LoadEnd: users loaded after the last write (and the function switch), before the resync.  A user is
+	// created with its computed channels / roles stored; a write invalidates the computed channels of the
+	// principals whose access() grants it changes and the computed roles of the users whose role() grants it
+	// changes; a load rebuilds what is invalidated.  Users not in LoadEnd reach the resync with whatever
+	// invalidations are pending and are first loaded AFTER it (by the observation).
+	LoadEnd []string
+	Ws      []c18W
+	Users   []c18User
+	Roles   []c18Role
 }
 
 // ---------- observations ----------
@@ -336,16 +347,42 @@ func (e *c18Env) put(w c18W) error {
 	_, _, err := e.col.PutExistingRevWithBody(e.ctx, c18DocID(w.Doc), w.Body.body(w.Del), w.Hist, false, ExistingVersionWithUpdateToHLV)
 	return err
 }
-func (e *c18Env) loadPrincipals(c c18Case) {
+func (e *c18Env) loadUsers(names []string) {
 	a := e.db.Authenticator(e.ctx)
-	for _, r := range c.Roles {
-		_, _ = a.GetRole(r.Name)
-	}
-	for _, u := range c.Users {
-		if user, err := a.GetUser(u.Name); err == nil && user != nil {
+	for _, n := range names {
+		if user, err := a.GetUser(n); err == nil && user != nil {
 			_, _ = user.InheritedCollectionChannels(e.col.ScopeName, e.col.Name)
 		}
 	}
+}
+
+// pending invalidations of a user as stored in its document (read raw, without loading the user)
+func (e *c18Env) pending(name string) (channels bool, roles bool) {
+	var m map[string]any
+	if _, err := e.db.MetadataStore.Get(e.ctx, e.db.MetadataKeys.UserKey(name), &m); err != nil {
+		return false, false
+	}
+	var walk func(v any) bool
+	walk = func(v any) bool {
+		switch x := v.(type) {
+		case map[string]any:
+			for k, y := range x {
+				if k == "channel_inval_seq" {
+					if f, ok := y.(float64); ok && f != 0 {
+						return true
+					}
+				}
+				if walk(y) {
+					return true
+				}
+			}
+		}
+		return false
+	}
+	if f, ok := m["role_inval_seq"].(float64); ok && f != 0 {
+		roles = true
+	}
+	return walk(m), roles
 }
 func (e *c18Env) resync(regen bool) int64 {
 	if err := e.db.ResyncManager.Start(e.ctx, ResyncOptions{Collections: base.NewCollectionNames(), RegenerateSequences: regen}); err != nil {
@@ -476,7 +513,7 @@ func c18Run(t *testing.T, rec *vRecorder, fl *c18Failer, stream string, c c18Cas
 			ndocs = w.Doc + 1
 		}
 	}
-	desc := map[string]any{"f1": c.F1.js(), "f2": c.F2.js(), "regenerate_sequences": c.Regen, "principals_loaded_before": c.Warm,
+	desc := map[string]any{"f1": c.F1.js(), "f2": c.F2.js(), "regenerate_sequences": c.Regen, "users_loaded_before_resync": c.LoadEnd,
 		"writes": c.Ws, "users": c.Users, "roles": c.Roles}
 
 	// database 1: written under f1, switched to f2, resynced
@@ -489,6 +526,10 @@ func c18Run(t *testing.T, rec *vRecorder, fl *c18Failer, stream string, c c18Cas
 			e1.setFn(c.F2)
 			switched = true
 		}
+		e1.loadUsers(w.LoadBefore)
+		if len(w.LoadBefore) > 0 {
+			rec.Err("load_between_writes")
+		}
 		if err := e1.put(w); err != nil {
 			docBad[w.Doc] = true
 			rec.Err("put_old:rejected")
@@ -500,10 +541,13 @@ func c18Run(t *testing.T, rec *vRecorder, fl *c18Failer, stream string, c c18Cas
 	if !switched {
 		e1.setFn(c.F2)
 	}
-	if c.Warm {
-		e1.loadPrincipals(c)
+	e1.loadUsers(c.LoadEnd)
+	before := e1.observe(c, ndocs, false)
+	pendCh, pendRl := map[string]bool{}, map[string]bool{}
+	for _, u := range c.Users {
+		pendCh[u.Name], pendRl[u.Name] = e1.pending(u.Name)
+		rec.Err(fmt.Sprintf("pre_resync_user:channels_pending=%v,roles_pending=%v", pendCh[u.Name], pendRl[u.Name]))
 	}
-	before := e1.observe(c, ndocs, c.Warm)
 	changed1 := e1.resync(c.Regen)
 	e1.db.FlushRevisionCacheForTest()
 	after1 := e1.observe(c, ndocs, true)
@@ -545,19 +589,20 @@ func c18Run(t *testing.T, rec *vRecorder, fl *c18Failer, stream string, c c18Cas
 	var ws1, ws2, us, rs []string
 	for _, w := range c.Ws {
 		if w.Second {
-			ws2 = append(ws2, w.coq())
+			ws2 = append(append(ws2, c18LoadsCoq(w.LoadBefore)...), w.coq())
 		} else {
-			ws1 = append(ws1, w.coq())
+			ws1 = append(append(ws1, c18LoadsCoq(w.LoadBefore)...), w.coq())
 		}
 	}
+	ws2 = append(ws2, c18LoadsCoq(c.LoadEnd)...)
 	for _, u := range c.Users {
 		us = append(us, "("+cqN(c18Idx(u.Name))+", "+c18Set(u.Ch, c18Chan)+", "+c18Set(u.Roles, c18Idx)+")")
 	}
 	for _, r := range c.Roles {
 		rs = append(rs, "("+cqN(c18Idx(r.Name))+", "+c18Set(r.Ch, c18Chan)+")")
 	}
-	coq := fmt.Sprintf("CResync %s %s %s %s %s %s %s %s %s %d %s %d %s %s", c.F1.coq(), c.F2.coq(), cqBool(c.Regen), cqList(ws1), cqList(ws2),
-		cqList(us), cqList(rs), cqBool(c.Warm), before.coq(), changed1, after1.coq(), changed2, after2.coq(), fresh.coq())
+	coq := fmt.Sprintf("CResync %s %s %s %s %s %s %s %s %d %s %d %s %s", c.F1.coq(), c.F2.coq(), cqBool(c.Regen), cqList(ws1), cqList(ws2),
+		cqList(us), cqList(rs), before.coq(), changed1, after1.coq(), changed2, after2.coq(), fresh.coq())
 
 	// ---------------- monitors (reflections of the theorem statements on the implementation's outputs) ----------------
 	find := func(o c18Obs, id int) *c18Doc {
@@ -675,6 +720,13 @@ func c18Run(t *testing.T, rec *vRecorder, fl *c18Failer, stream string, c c18Cas
 			if c.Regen {
 				sig = "resync-regen-principals-not-invalidated"
 			}
+			if pendCh[u.Name] && !pendRl[u.Name] && !c18Eq(u.Roles, f.Roles) {
+				// the user reached the resync with its computed channels already invalidated (an access() write
+				// after its last load) and its computed roles still valid; it was first loaded after the resync
+				sig = "resync-stale-role-grants-after-pending-channel-invalidation"
+			}
+			in["channels_pending_before_resync"] = pendCh[u.Name]
+			in["roles_pending_before_resync"] = pendRl[u.Name]
 			if !c18Eq(u.Ch, f.Ch) || !c18Eq(u.Roles, f.Roles) {
 				fl.Fail("resync_principals_eq_fresh", sig, in, fmt.Sprintf("effective channels %v roles %v after resync; fresh database %v %v", u.Ch, u.Roles, f.Ch, f.Roles))
 			} else if !c18EqI(u.Vis, f.Vis) {
@@ -829,7 +881,7 @@ func c18GenPrincipals(r *vRand) ([]c18User, []c18Role) {
 }
 
 func c18GenCase(r *vRand, adversarial bool) c18Case {
-	c := c18Case{F1: c18GenF(r, adversarial, adversarial), F2: c18GenF(r, adversarial, adversarial), Regen: r.Chance(40), Warm: true}
+	c := c18Case{F1: c18GenF(r, adversarial, adversarial), F2: c18GenF(r, adversarial, adversarial), Regen: r.Chance(40)}
 	c.Users, c.Roles = c18GenPrincipals(r)
 	ndocs := 1 + r.Intn(6)
 	if r.Chance(20) {
@@ -850,6 +902,53 @@ func c18GenCase(r *vRand, adversarial bool) c18Case {
 	}
 	// writes after the switch come after every write before it
 	sort.SliceStable(c.Ws, func(i, j int) bool { return !c.Ws[i].Second && c.Ws[j].Second })
+	// user loads: between writes, and (for all / some / none of the users) after the last write
+	for i := range c.Ws {
+		if r.Chance(20) {
+			c.Ws[i].LoadBefore = []string{fmt.Sprintf("u%d", r.Intn(3))}
+		}
+	}
+	switch k := r.Intn(10); {
+	case k < 5:
+		c.LoadEnd = []string{"u0", "u1", "u2"}
+	case k < 8:
+		for i := 0; i < 3; i++ {
+			if r.Chance(50) {
+				c.LoadEnd = append(c.LoadEnd, fmt.Sprintf("u%d", i))
+			}
+		}
+	}
+	return c
+}
+
+// the pending-invalidation scenario: a role() grant for user [who] exists and the user is loaded; then a
+// document grants the user access() (computed channels invalidated, computed roles still valid); the function
+// changes so that the role() grant changes; the resync runs WITHOUT the user being loaded in between; the
+// user is first loaded afterwards.
+func c18PendingCase(r *vRand, who int, regen bool, variant int) c18Case {
+	u := fmt.Sprintf("u%d", who)
+	c := c18Case{F1: c18F{CA: true, G: 1, R: 1}, F2: c18F{CB: true, G: 2, R: 2}, Regen: regen}
+	c.Users = []c18User{{Name: "u0", Ch: []string{"A"}}, {Name: "u1"}, {Name: "u2", Ch: []string{"B"}, Roles: []string{"r1"}}}
+	c.Roles = []c18Role{{Name: "r0", Ch: []string{"E"}}, {Name: "r1", Ch: []string{"F"}}}
+	roleDoc := c18W1(0, []string{"1-aaa"}, c18B{A: "A", B: "B", R: u, RA: "r0", RB: "r1"}, false)
+	accDoc := c18W1(1, []string{"1-aaa"}, c18B{A: "A", B: "C", U: u, GA: "C", GB: "D"}, false)
+	accDoc.LoadBefore = []string{u}
+	c.Ws = []c18W{roleDoc, accDoc}
+	switch variant {
+	case 1: // more documents around, other users loaded before the resync
+		c.Ws = append(c.Ws, c18GenDoc(r, 2, 1+r.Intn(3), false, func() bool { return false })...)
+		for i := 0; i < 3; i++ {
+			if i != who {
+				c.LoadEnd = append(c.LoadEnd, fmt.Sprintf("u%d", i))
+			}
+		}
+	case 2: // the access() grant is a later revision of the document that carries the role() grant
+		acc2 := c18W1(0, []string{"2-bbb", "1-aaa"}, c18B{A: "A", B: "B", R: u, RA: "r0", RB: "r1", U: u, GA: "C", GB: "D"}, false)
+		acc2.LoadBefore = []string{u}
+		c.Ws = []c18W{roleDoc, acc2}
+	case 3: // both computed sets pending: the role() grant is also written after the last load
+		c.Ws = []c18W{accDoc, roleDoc}
+	}
 	return c
 }
 
@@ -881,6 +980,7 @@ func TestVerifC18(t *testing.T) {
 	rnd := vNewRand(vSeed())
 	fl := &c18Failer{rec: rec, n: map[string]int{}}
 	defer func() { rec.Extra("monitor_failures_by_signature", fl.n) }()
+	allUsers := []string{"u0", "u1", "u2"}
 	users := []c18User{{Name: "u0", Ch: []string{"A"}, Roles: []string{"r1"}}, {Name: "u1"}, {Name: "u2", Ch: []string{"B"}}}
 	roles := []c18Role{{Name: "r0", Ch: []string{"E"}}, {Name: "r1", Ch: []string{"F"}}}
 
@@ -888,10 +988,10 @@ func TestVerifC18(t *testing.T) {
 	fa := c18F{CA: true, G: 1, R: 1}
 	fb := c18F{CB: true, G: 2, R: 2}
 	leafOnly := []c18W{c18W1(0, []string{"1-zzz"}, c18B{A: "A", B: "A"}, false), c18W1(0, []string{"1-aaa"}, c18B{A: "A", B: "B"}, false)}
-	c18Run(t, rec, fl, "corpus", c18Case{F1: c18F{CA: true}, F2: c18F{CB: true}, Warm: true, Ws: leafOnly, Users: users, Roles: roles})
-	c18Run(t, rec, fl, "corpus", c18Case{F1: fa, F2: fb, Regen: true, Warm: true, Ws: c18ShapeCorpus(), Users: users, Roles: roles})
-	c18Run(t, rec, fl, "corpus", c18Case{F1: fa, F2: fb, Regen: false, Warm: true, Ws: c18ShapeCorpus(), Users: users, Roles: roles})
-	c18Run(t, rec, fl, "corpus", c18Case{F1: fa, F2: fa, Regen: false, Warm: true, Ws: c18ShapeCorpus(), Users: users, Roles: roles}) // unchanged function
+	c18Run(t, rec, fl, "corpus", c18Case{F1: c18F{CA: true}, F2: c18F{CB: true}, LoadEnd: allUsers, Ws: leafOnly, Users: users, Roles: roles})
+	c18Run(t, rec, fl, "corpus", c18Case{F1: fa, F2: fb, Regen: true, LoadEnd: allUsers, Ws: c18ShapeCorpus(), Users: users, Roles: roles})
+	c18Run(t, rec, fl, "corpus", c18Case{F1: fa, F2: fb, Regen: false, LoadEnd: allUsers, Ws: c18ShapeCorpus(), Users: users, Roles: roles})
+	c18Run(t, rec, fl, "corpus", c18Case{F1: fa, F2: fa, Regen: false, LoadEnd: allUsers, Ws: c18ShapeCorpus(), Users: users, Roles: roles}) // unchanged function
 
 	// ---- (b) bounded-exhaustive: all ordered pairs of a small function set x regenerate_sequences on the shape corpus ----
 	fset := []c18F{fa, fb, {CA: true, CB: true, RG: 1}, {CB: true, G: 2, R: 2, Rej: 2}}
@@ -905,19 +1005,35 @@ func TestVerifC18(t *testing.T) {
 				if !vThorough() && uint64(i*4+j+map[bool]int{false: 0, true: 1}[regen])%2 != vSeed()%2 {
 					continue // quick tier: half of the pairs per run (the other half with the other seed parity)
 				}
-				c18Run(t, rec, fl, "exhaustive", c18Case{F1: f1, F2: f2, Regen: regen, Warm: true, Ws: c18ShapeCorpus(), Users: users, Roles: roles})
+				loadEnd := allUsers
+				if (i+j)%2 == 1 {
+					loadEnd = nil // nobody loaded between the writes and the end of the resync
+				}
+				c18Run(t, rec, fl, "exhaustive", c18Case{F1: f1, F2: f2, Regen: regen, LoadEnd: loadEnd, Ws: c18ShapeCorpus(), Users: users, Roles: roles})
 				pairs++
 			}
 		}
 	}
 	rec.Extra("function_pairs_on_shape_corpus", pairs)
 
+	// ---- (b') pending invalidations: every user x regenerate on/off x four variants of the scenario ----
+	for who := 0; who < 3; who++ {
+		for _, regen := range []bool{false, true} {
+			for variant := 0; variant < 4; variant++ {
+				if !vThorough() && uint64(who+variant+map[bool]int{false: 0, true: 1}[regen])%2 != vSeed()%2 && variant != 0 {
+					continue // quick tier: variant 0 always, half of the others per seed parity
+				}
+				c18Run(t, rec, fl, "pending", c18PendingCase(rnd, who, regen, variant))
+			}
+		}
+	}
+
 	// ---- (c) random: structured stream (no rejections, plain tombstones) and adversarial stream ----
-	n := vBudget(60, 1000)
+	n := vBudget(52, 1000)
 	for i := 0; i < n; i++ {
 		c18Run(t, rec, fl, "random", c18GenCase(rnd, false))
 	}
-	m := vBudget(28, 400)
+	m := vBudget(24, 400)
 	for i := 0; i < m; i++ {
 		c18Run(t, rec, fl, "adversarial", c18GenCase(rnd, true))
 	}
